@@ -23,6 +23,8 @@ def handleLine (line : String) : String :=
       | "build" => handleBuild args
       | "roundtrip" => handleRoundtrip args
       | "valhdr" => handleValHdr args
+      | "xpol" => handleXpol args
+      | "xpolb" => handleXpolBuild args
       | _ => "unknown-kind"
     id ++ " " ++ out
   | _ => "? bad-line"
